@@ -29,4 +29,6 @@ def run(tier, seed):
     # verify / verify_strict as whole runs in the exact group model with SHA-512 uninterpreted (independent second decision): checks/c08s.py
     from checks import c08s
     for t in c08s.verify_harnesses(rep, tier): t()
+    # the legacy_compatibility build: only the top three bits of S are checked, everything else unchanged
+    for t in c08s.legacy_harnesses(rep, tier): t()
     return rep
